@@ -36,6 +36,8 @@ class Interp:
         self.record_nodes = True
         self.node_av: dict[int, AV] = {}
         self.render_log: dict[str, dict[str, AV]] = {}
+        self.path_conds: list[tuple[str, bool]] = []      # (test source, polarity) of the branches being interpreted
+        self.render_conds: dict[str, set[tuple[tuple[str, bool], ...]]] = {}  # template -> path conditions of its render calls
         self.render_where: dict[str, list[str]] = {}
         self.unresolved_calls: dict[str, int] = {}
         self.resolved_calls = 0
@@ -936,6 +938,7 @@ class Interp:
                 sites = self.render_where.setdefault(name, [])
                 if where not in sites:
                     sites.append(where)
+                self.render_conds.setdefault(name, set()).add(tuple(self.path_conds))
                 for k, v in kwargs.items():
                     nv = join(d.get(k), v)
                     if nv != d.get(k):
@@ -1152,11 +1155,74 @@ class Interp:
 
     # ------------------------------------------------------------------ statements
     def ex(self, body: list[ast.stmt], env: Env | None) -> Env | None:
+        res: Env | None = None
+        for _c, e in self.ex_parts(body, env):
+            res = self.join_env(res, e)
+        return res
+
+    def ex_parts(self, body: list[ast.stmt], env: Env | None) -> list[tuple[tuple[tuple[str, bool], ...], Env]]:
+        """Interprets a block and returns its final environments as partitions (branch conditions taken inside this block, env).
+        Normally there is one partition.  Branch conditions are recorded in path_conds so that bridge calls know under which tests
+        they happen.  When the branches of an `if` (or the arms of `x = a if c else b`) leave a variable holding DIFFERENT template
+        objects, the environments are not joined: the rest of the block - and of the enclosing blocks - is interpreted once per
+        partition (trace partitioning), so that `t = A if c else B; t.render(x=v)` sees v as narrowed by c for A and by not-c for
+        B, exactly like `if c: A.render(x=v) else: B.render(x=v)`."""
+        parts: list[tuple[tuple[tuple[str, bool], ...], Env]] = [((), env)] if env is not None else []
         for st in body:
-            if env is None:
-                return None
-            env = self.ex1(st, env)
-        return env
+            if isinstance(st, ast.Assign) and isinstance(st.value, ast.IfExp):
+                st = self._ifexp_as_if(st)
+            new: list[tuple[tuple[tuple[str, bool], ...], Env]] = []
+            for conds, e in parts:
+                n0 = len(self.path_conds)
+                self.path_conds.extend(conds)
+                try:
+                    if isinstance(st, ast.If):
+                        self.ev(st.test, e)
+                        t_env, f_env = self.narrow(st.test, e)
+                        src = ast.unparse(st.test)
+                        live: list[tuple[tuple[tuple[str, bool], ...], Env]] = []
+                        for branch, e0, pol in ((st.body, t_env, True), (st.orelse, f_env, False)):
+                            self.path_conds.append((src, pol))
+                            try:
+                                live += [(((src, pol),) + c2, e2) for c2, e2 in self.ex_parts(branch, dict(e0))]
+                            finally:
+                                self.path_conds.pop()
+                        if 1 < len(live) <= 6 and any(self._different_templates(x.get(k), y.get(k))
+                                                      for ix_, (_cx, x) in enumerate(live) for _cy, y in live[ix_ + 1:] for k in set(x) | set(y)):
+                            new += [(conds + c2, e2) for c2, e2 in live]
+                        else:
+                            joined: Env | None = None
+                            for _c2, e2 in live:
+                                joined = self.join_env(joined, e2)
+                            if joined is not None:
+                                new.append((conds, joined))
+                    else:
+                        e2 = self.ex1(st, e)
+                        if e2 is not None:
+                            new.append((conds, e2))
+                finally:
+                    del self.path_conds[n0:]
+            if len(new) > 8:
+                joined = None
+                for _c2, e2 in new:
+                    joined = self.join_env(joined, e2)
+                new = [((), joined)] if joined is not None else []
+            parts = new
+        return parts
+
+    @staticmethod
+    def _different_templates(x: AV | None, y: AV | None) -> bool:
+        return (x is not None and y is not None and "jinja2.Template" in x.types and "jinja2.Template" in y.types
+                and bool(x.consts) and bool(y.consts) and x.consts != y.consts)
+
+    @staticmethod
+    def _ifexp_as_if(st: ast.Assign) -> ast.If:
+        """`x = a if c else b` interpreted as `if c: x = a` / `else: x = b` (same evaluation order of the arms that run)"""
+        v = st.value
+        assert isinstance(v, ast.IfExp)
+        mk = lambda val: ast.copy_location(ast.Assign(targets=st.targets, value=val, lineno=st.lineno), st)  # noqa: E731
+        node = ast.If(test=v.test, body=[mk(v.body)], orelse=[mk(v.orelse)])
+        return ast.copy_location(node, st)
 
     def ex1(self, st: ast.stmt, env: Env) -> Env | None:
         if isinstance(st, ast.Assign):
